@@ -547,6 +547,12 @@ def run_alg(ctx, case):
 
 
 def finish(ctx):
+  if not ctx.quick and ctx.shard == 0:
+    # extra workload: the repository's own test-suite under passive monitors
+    # (invariants at hooks on the real classes; vlib/passive.py)
+    from vlib.passive_run import run_suite
+    if run_suite(ctx, "filt"):
+      ctx.need("passive:filt:eq_ne_checked", 20)
   ctx.need("operand-integrity-checked", 300)
   ctx.need("fraction-coefficient-case", 100)
   ctx.need("fraction-leading-denominator-coefficient", 50)
